@@ -36,6 +36,51 @@ def background():
     return list(GLOBAL_AXIOMS) + CTX.string_axioms()
 
 
+def numeric_counterexample(conds, goal, leaves, tries=400):
+    """Random search for leaf values on which every path condition holds and the goal does not (floating point with
+    margins, real cos/sin/...).  Used when the SMT solver gives up on a query that the ring back end could not prove."""
+    import random
+    from . import xcheck
+    from .zeval import zeval, Unevaluable, Ambiguous
+    rng = random.Random(4711)
+    for _ in range(tries):
+        lv = xcheck.random_leaves(leaves, rng)
+        if lv is None:
+            return None
+        try:
+            env = xcheck.env_of(lv, leaves)
+            cache = {}
+            if all(zeval(c, env, cache) for c in conds) and not zeval(goal, env, cache):
+                return lv
+        except (Unevaluable, Ambiguous, ZeroDivisionError, OverflowError, ValueError, KeyError):
+            continue
+    return None
+
+
+def solve_goal(conds, goal, timeout_ms):
+    """Discharge conds => goal.  Equality atoms that are identities of rational functions are decided by the ring
+    back end (polynomial normalisation) first; the residual goal goes to the SMT solvers."""
+    from . import ring
+    t0 = time.time()
+    stats = {}
+    g2 = goal
+    before = dict(ring.STATS)
+    try:
+        subs = ring.substitutions(conds)
+        g1 = z3.substitute(goal, *subs) if subs else goal
+        g2 = z3.simplify(ring.simplify_goal(g1, stats=stats))
+    except Exception:
+        g2 = goal
+    ms0 = int((time.time() - t0) * 1000)
+    tag = 'ring(pit)' if ring.STATS['pit'] > before['pit'] else 'ring(exact)'
+    if z3.is_true(g2):
+        return 'unsat', None, ms0, tag
+    st, model, ms, be = solve(list(conds) + [z3.Not(g2)], timeout_ms)
+    if stats.get('identities'):
+        be = tag + '+' + be
+    return st, model, ms + ms0, be
+
+
 def solve(assertions, timeout_ms, want_model=True, use_cvc5=True):
     """-> (status, model, ms, backend)."""
     t0 = time.time()
@@ -283,7 +328,8 @@ class Engine:
         CTX.counter = 0
         self.touched = set()
         out = {'contract': c['name'], 'sidecar': c['module'], 'target': c['target'], 'props': c['props'], 'status': None,
-               'obligations': [], 'paths': 0, 'notes': [], 'source': self.source_info(c['target']) if c['target'] else None}
+               'obligations': [], 'paths': 0, 'notes': [], 'source': self.source_info(c['target']) if c['target'] else None,
+               'bounded': c['meta'].get('bounded')}
         if c['target'] and self.resolve(c['target']) is None:
             out['status'] = 'undecided'
             out['notes'].append(f'target {c["target"]} not found in the repository (renamed or deleted?)')
@@ -331,14 +377,24 @@ class Engine:
             vac['status'] = 'failed'
             vac['reason'] = 'precondition unsatisfiable or no path reaches the call (vacuous contract)'
         else:
-            st, model, ms, be = solve(recs[0][0], timeout_ms)
-            vac['ms'] += ms
-            vac['queries'].append({'path': 0, 'result': st, 'ms': ms, 'backend': be, 'expect': 'sat'})
-            if st == 'unsat':
+            vac['status'] = 'undecided'
+            for pi, (conds, rec) in enumerate(recs[:8]):
+                st, model, ms, be = solve(conds, min(timeout_ms, 5000))
+                vac['ms'] += ms
+                vac['queries'].append({'path': pi, 'result': st, 'ms': ms, 'backend': be, 'expect': 'sat'})
+                if st == 'sat':
+                    vac['status'] = 'discharged'
+                    out['pre_witness'] = self.model_leaves(model, rec.leaves)
+                    break
+            if vac['status'] != 'discharged':
+                w = self._numeric_witness(recs)
+                if w is not None:
+                    vac['status'] = 'discharged'
+                    vac['queries'].append({'path': w[0], 'result': 'sat', 'ms': 0, 'backend': 'numeric witness (zeval)', 'expect': 'sat'})
+                    out['pre_witness'] = w[1]
+            if vac['status'] != 'discharged' and all(q['result'] == 'unsat' for q in vac['queries']) and len(recs) <= 8:
                 vac['status'] = 'failed'
-                vac['reason'] = 'first path infeasible'
-            elif st == 'sat':
-                out['pre_witness'] = self.model_leaves(model, recs[0][1].leaves)
+                vac['reason'] = 'every path is infeasible (vacuous contract)'
         for pi, (conds, rec) in enumerate(recs):
             for note in rec.notes:
                 if note not in out['notes']:
@@ -348,7 +404,12 @@ class Engine:
                 if z3.is_true(goal):
                     o['queries'].append({'path': pi, 'result': 'trivial', 'ms': 0, 'backend': 'simplifier'})
                     continue
-                st, model, ms, be = solve(list(conds) + [z3.Not(goal)], timeout_ms)
+                st, model, ms, be = solve_goal(conds, goal, timeout_ms)
+                num_ce = None
+                if st == 'unknown':
+                    num_ce = numeric_counterexample(conds, goal, rec.leaves)
+                    if num_ce is not None:
+                        st, be = 'sat', be + '+numeric-search'
                 o['ms'] += ms
                 q = {'path': pi, 'result': st, 'ms': ms, 'backend': be}
                 if oid == 'raises.sound':
@@ -359,7 +420,7 @@ class Engine:
                     if 'counterexamples' not in o:
                         o['counterexamples'] = []
                     if len(o['counterexamples']) < 3:
-                        ce = {'path': pi, 'leaves': self.model_leaves(model, rec.leaves), 'outcome': rec.kind}
+                        ce = {'path': pi, 'leaves': num_ce if num_ce is not None else self.model_leaves(model, rec.leaves), 'outcome': rec.kind}
                         if rec.kind == 'exc':
                             ce['raised'] = rec.result.exc.cls.name
                         o['counterexamples'].append(ce)
@@ -370,6 +431,30 @@ class Engine:
         out['status'] = 'failed' if 'failed' in sts else ('undecided' if 'undecided' in sts else 'discharged')
         out['wall_s'] = round(time.time() - t0, 3)
         return out
+
+    def _numeric_witness(self, recs, tries=300):
+        """A concrete input on which all conditions of some path evaluate to true (floating point, with margins)."""
+        import random
+        from . import xcheck
+        from .zeval import zeval, Unevaluable, Ambiguous
+        rng = random.Random(12345)
+        leaves = recs[0][1].leaves
+        for _ in range(tries):
+            lv = xcheck.random_leaves(leaves, rng)
+            if lv is None:
+                return None
+            try:
+                env = xcheck.env_of(lv, leaves)
+            except Exception:
+                continue
+            for pi, (conds, rec) in enumerate(recs):
+                try:
+                    cache = {}
+                    if all(zeval(c, env, cache) for c in conds):
+                        return pi, lv
+                except (Unevaluable, Ambiguous, ZeroDivisionError, OverflowError, ValueError):
+                    continue
+        return None
 
     def model_leaves(self, model, leaves):
         from fractions import Fraction
